@@ -5,9 +5,11 @@ import (
 	"context"
 	"encoding/json"
 	"fmt"
+	"math/rand"
 	"net"
 	"os"
 	"path/filepath"
+	"runtime"
 	"sort"
 	"strings"
 	"sync"
@@ -36,6 +38,9 @@ type syncScn struct {
 	Repeat   bool            `json:"repeat"` // run the same transfer a second time (idempotence)
 	CapUp    int             `json:"capup"`  // lib arrangement: transport capacities (0 = unbounded default)
 	CapDown  int             `json:"capdown"`
+	Chunk    int             `json:"chunk"`          // lib: reads return at most this many bytes (0: unlimited)
+	Jitter   int64           `json:"jitter"`         // lib: seed of random yields / micro-sleeps in transport operations (0: none)
+	Flip     int64           `json:"flip"`           // lib: flip one bit of the sender->receiver stream at this offset (0: none)
 	Echo     json.RawMessage `json:"echo,omitempty"` // passed through (opts, rules, ... for the trace spec)
 }
 
@@ -332,6 +337,31 @@ func runCmd(logw *capBuf, args []string) error {
 	}
 }
 
+// parkedSummary extracts, from a goroutine dump, where the session's goroutines are parked.
+func parkedSummary(dump string) string {
+	var out []string
+	for _, g := range strings.Split(dump, "\n\n") {
+		if strings.Contains(g, "xport.(*Pipe)") {
+			lines := strings.Split(g, "\n")
+			var fr []string
+			for _, l := range lines {
+				if strings.Contains(l, "gokrazy/rsync/") && !strings.Contains(l, "verifharness") && !strings.HasPrefix(l, "\t") {
+					fr = append(fr, strings.TrimSpace(strings.SplitN(l, "(", 2)[0]))
+				}
+			}
+			op := "read"
+			if strings.Contains(g, "(*Pipe).Write") {
+				op = "write"
+			}
+			if len(fr) > 3 {
+				fr = fr[:3]
+			}
+			out = append(out, "parked in transport "+op+": "+strings.Join(fr, " <- "))
+		}
+	}
+	return strings.Join(out, "\n")
+}
+
 // runLib: the library client over an arbitrary stream: rsyncclient.Run on one
 // end, the server in command mode (HandleConnArgs, implicit module) on the other.
 func runLib(logw *capBuf, s *syncScn, srcArg, ddir string) error {
@@ -350,13 +380,48 @@ func runLib(logw *capBuf, s *syncScn, srcArg, ddir string) error {
 		return err
 	}
 	capUp, capDown := s.CapUp, s.CapDown
-	if capUp == 0 {
-		capUp = -1
+	// 0: unbounded (default); -2: rendezvous (zero capacity); n > 0: n bytes
+	conv := func(c int) int {
+		switch c {
+		case 0:
+			return -1
+		case -2:
+			return 0
+		}
+		return c
 	}
-	if capDown == 0 {
-		capDown = -1
-	}
+	capUp, capDown = conv(capUp), conv(capDown)
 	a, b := xport.Conn(capUp, capDown, nil)
+	for _, p := range []*xport.Pipe{a.In, a.Out} {
+		p.MaxRead = s.Chunk
+		if s.Jitter != 0 {
+			rnd := rand.New(rand.NewSource(s.Jitter))
+			var mu sync.Mutex
+			p.Yield = func() {
+				mu.Lock()
+				k := rnd.Intn(20)
+				mu.Unlock()
+				switch {
+				case k < 6:
+					runtime.Gosched()
+				case k == 6:
+					time.Sleep(time.Duration(1+k) * time.Microsecond)
+				}
+			}
+		}
+	}
+	if s.Flip > 0 {
+		// the data direction: server->client when pulling, client->server when pushing
+		data := a.In
+		if push {
+			data = a.Out
+		}
+		data.Mangle = func(b []byte, off int64) {
+			if s.Flip >= off && s.Flip < off+int64(len(b)) {
+				b[s.Flip-off] ^= 0x04
+			}
+		}
+	}
 	var sargs []string
 	var cpaths []string
 	if push {
@@ -379,17 +444,36 @@ func runLib(logw *capBuf, s *syncScn, srcArg, ddir string) error {
 		cdone <- err
 	}()
 	var cerr, serr error
-	timeout := time.After(60 * time.Second)
-	for i := 0; i < 2; i++ {
+	// a hang is established by the transport: no byte moved in either direction for 5 s
+	// while the session has not finished; the goroutine dump goes into the error
+	progress := func() int64 {
+		_, _, _, p1 := a.In.State()
+		_, _, _, p2 := a.Out.State()
+		return p1 + p2
+	}
+	last, lastChange := progress(), time.Now()
+	for i := 0; i < 2; {
 		select {
 		case cerr = <-cdone:
+			i++
 			if cerr != nil {
 				a.Close()
 			}
 		case serr = <-sdone:
-		case <-timeout:
-			a.Close()
-			return fmt.Errorf("HUNG: library session did not finish within 60 s")
+			i++
+		case <-time.After(100 * time.Millisecond):
+			if p := progress(); p != last {
+				last, lastChange = p, time.Now()
+			} else if time.Since(lastChange) > 3*time.Second {
+				buf := make([]byte, 1<<20)
+				n := runtime.Stack(buf, true)
+				dump := string(buf[:n])
+				r1, w1, b1, _ := a.In.State()
+				r2, w2, b2, _ := a.Out.State()
+				a.Close()
+				return fmt.Errorf("HUNG: no transport progress for 3 s (down: %d readers %d writers %d buffered; up: %d readers %d writers %d buffered)\n%s",
+					r1, w1, b1, r2, w2, b2, parkedSummary(dump))
+			}
 		}
 	}
 	a.Close()
